@@ -1066,7 +1066,13 @@ Definition sc (p : path) : Prop :=
   seg0 (pm (pbase p)) < 64 /\ seg1 (pm (pbase p)) < 64 /\ seg2 (pm (pbase p)) < 64.
 
 Definition op_ok (o : op) : Prop :=
-  match o with OSetPtr ci ch => ci < 4 /\ ch < 64 | _ => True end.
+  match o with
+  | OSetPtr ci ch => ci < 4 /\ ch < 64
+  | ODecode w datalen is hs =>
+    w < 2 ^ 32 /\ exists q, path_decode w datalen is hs = Some q /\
+      num_inf (pbase q) <= N.of_nat (length is) /\ num_hops (pbase q) <= N.of_nat (length hs)
+  | _ => True
+  end.
 
 Lemma canonical_sc p : canonical p -> sc p.
 Proof.
@@ -1170,7 +1176,7 @@ Qed.
 (** every operation keeps the invariants *)
 Lemma step_canonical p o : canonical p -> op_ok o -> canonical (so_path (step true p o)).
 Proof.
-  intros C OK. destruct o as [v| |ci ch| |i x|i x]; cbn [step so_path mk_sobs].
+  intros C OK. destruct o as [v| |ci ch| |i x|i x| |w dl is hs]; cbn [step so_path mk_sobs].
   - now apply canonical_inc.
   - destruct (N.eq_dec (num_inf (pbase p)) 0) as [E|E].
     + rewrite (reverse_raw_empty p C E). exact C.
@@ -1184,11 +1190,14 @@ Proof.
   - destruct (i <? num_hops (pbase p)); [|exact C]. cbn [so_path mk_sobs].
     destruct C as ((W1 & W2 & W3) & WM & SH & EB). unfold canonical, wf_path. cbn [pbase infos hops].
     rewrite set_nth_length. tauto.
+  - exact C.
+  - destruct OK as (Hw & q & E & L1 & L2). rewrite E. cbn [so_path mk_sobs].
+    exact (path_decode_canonical w dl is hs q Hw E L1 L2).
 Qed.
 
 Lemma step_sc p o : sc p -> op_ok o -> sc (so_path (step false p o)).
 Proof.
-  intros S OK. destruct o as [v| |ci ch| |i x|i x]; cbn [step so_path mk_sobs].
+  intros S OK. destruct o as [v| |ci ch| |i x|i x| |w dl is hs]; cbn [step so_path mk_sobs].
   - now apply sc_inc.
   - destruct (N.eq_dec (num_inf (pbase p)) 0) as [E|E].
     + unfold reverse_decoded. rewrite E. exact S.
@@ -1201,6 +1210,9 @@ Proof.
   - destruct (i <? num_hops (pbase p)); [|exact S]. cbn [so_path mk_sobs].
     destruct S as ((W1 & W2 & W3) & R). unfold sc, wf_path. cbn [pbase infos hops].
     rewrite set_nth_length. tauto.
+  - exact S.
+  - destruct OK as (Hw & q & E & L1 & L2). rewrite E. cbn [so_path mk_sobs].
+    apply canonical_sc. exact (path_decode_canonical w dl is hs q Hw E L1 L2).
 Qed.
 
 (** ... and shows what the property demands *)
@@ -1228,7 +1240,7 @@ Qed.
 
 Lemma step_oracle_raw p o : canonical p -> step_oracle p o (step true p o) = true.
 Proof.
-  intros C. destruct o as [v| |ci ch| |i x|i x]; cbn [step_oracle]; try reflexivity.
+  intros C. destruct o as [v| |ci ch| |i x|i x| |w dl is hs]; cbn [step_oracle]; try reflexivity.
   - apply inc_oracle_model. now apply canonical_sc.
   - cbn [step]. destruct (N.eqb_spec (num_inf (pbase p)) 0) as [E|E].
     + rewrite (reverse_raw_empty p C E). reflexivity.
@@ -1237,11 +1249,13 @@ Proof.
       rewrite (rr_reversed p C PR), path_eqb_refl. reflexivity.
   - cbn [step]. rewrite (to_raw_canonical p C). cbn [so_code so_path so_conv mk_sobs].
     rewrite path_eqb_refl. unfold opath_eqb, option_eqb. rewrite path_eqb_refl. apply orb_true_r.
+  - cbn [step]. rewrite (to_raw_canonical p C). cbn [so_code so_path so_conv mk_sobs].
+    rewrite path_eqb_refl. unfold opath_eqb, option_eqb. rewrite path_eqb_refl. apply orb_true_r.
 Qed.
 
 Lemma step_oracle_dec p o : sc p -> step_oracle p o (step false p o) = true.
 Proof.
-  intros S. destruct o as [v| |ci ch| |i x|i x]; cbn [step_oracle]; try reflexivity.
+  intros S. destruct o as [v| |ci ch| |i x|i x| |w dl is hs]; cbn [step_oracle]; try reflexivity.
   - now apply inc_oracle_model.
   - cbn [step]. pose proof S as (W & SH & EB & _).
     destruct (N.eqb_spec (num_inf (pbase p)) 0) as [E|E].
@@ -1256,6 +1270,17 @@ Proof.
   - cbn [step]. destruct (ptrs_in_range p) eqn:PR; [|reflexivity]. cbn [negb orb].
     rewrite (to_raw_canonical p (sc_range p S PR)). cbn [so_code so_path so_conv mk_sobs].
     rewrite path_eqb_refl. unfold opath_eqb, option_eqb. rewrite path_eqb_refl. reflexivity.
+  - cbn [step]. destruct (ptrs_in_range p) eqn:PR; [|reflexivity]. cbn [negb orb].
+    rewrite (to_raw_canonical p (sc_range p S PR)). cbn [so_code so_path so_conv mk_sobs].
+    rewrite path_eqb_refl. unfold opath_eqb, option_eqb. rewrite path_eqb_refl. reflexivity.
+Qed.
+
+Lemma pair_oracle_model r d o : op_ok o -> pair_oracle o (step true r o) (step false d o) = true.
+Proof.
+  intros OK. destruct o as [v| |ci ch| |i x|i x| |w dl is hs]; try reflexivity.
+  destruct OK as (Hw & q & E & L1 & L2). cbn [pair_oracle step]. rewrite E. cbn [so_code so_path mk_sobs].
+  destruct (path_decode_canonical w dl is hs q Hw E L1 L2) as ((W1 & W2 & _) & _).
+  rewrite path_eqb_refl, <- W1, <- W2, !N.eqb_refl. reflexivity.
 Qed.
 
 Lemma sobs_eqb_refl s : sobs_eqb s s = true.
@@ -1270,5 +1295,6 @@ Proof.
   induction ops as [|o ops IH]; intros r d C S OK; [split; reflexivity|].
   apply Forall_cons_iff in OK as [O1 OK]. cbn [seq_model seq_agree seq_oracle].
   destruct (IH _ _ (step_canonical r o C O1) (step_sc d o S O1) OK) as [A B].
-  rewrite !sobs_eqb_refl, A, (step_oracle_raw r o C), (step_oracle_dec d o S), B. split; reflexivity.
+  rewrite !sobs_eqb_refl, A, (step_oracle_raw r o C), (step_oracle_dec d o S), (pair_oracle_model r d o O1), B.
+  split; reflexivity.
 Qed.
